@@ -23,6 +23,7 @@ type cliFlags struct {
 	eight      bool
 	preset     string
 	F, r       int
+	A          bool // -A: assemble and print the listings only
 }
 
 type presetDoc struct{ dialect, m, l, p, c, d int }
@@ -36,6 +37,11 @@ var presetsDoc = map[string]presetDoc{
 }
 
 func (f cliFlags) args() []string {
+	if f.A {
+		g := f
+		g.A = false
+		return append([]string{"-A"}, g.args()...)
+	}
 	if f.preset != "" {
 		a := []string{"-preset", f.preset}
 		// other configuration flags given together with a preset are documented to be ignored
@@ -122,6 +128,43 @@ func runCLI(bin, dir string, f cliFlags, progs []prog, r *rand.Rand, id int) str
 	}
 	for _, p := range files {
 		os.Remove(p)
+	}
+	if f.A {
+		// -A: one listing per warrior, each followed by an empty line.  Generic tokenization as for C16: fields split on
+		// blanks and commas, OP.MOD split at the dot, integers as numbers; an empty line closes a listing.
+		var lists []string
+		var cur []string
+		flush := func() {
+			if len(cur) > 0 {
+				lists = append(lists, "["+strings.Join(cur, ",")+"]")
+				cur = nil
+			}
+		}
+		for _, l := range strings.Split(so.String(), "\n") {
+			fl := strings.Fields(strings.ReplaceAll(l, ",", " "))
+			if len(fl) == 0 {
+				flush()
+				continue
+			}
+			var g []string
+			for _, x := range fl {
+				if _, err := strconv.Atoi(x); err == nil {
+					g = append(g, x)
+				} else if k := strings.Index(x, "."); k > 0 {
+					g = append(g, jq(x[:k]), jq(x[k+1:]))
+				} else {
+					g = append(g, jq(x))
+				}
+			}
+			cur = append(cur, "["+strings.Join(g, ",")+"]")
+		}
+		flush()
+		var ps []string
+		for _, p := range progs {
+			ps = append(ps, p.json())
+		}
+		return fmt.Sprintf(`{"ev":"cliA","flags":%s,"progs":[%s],"lists":[%s],"exit":%d,"timeout":%d,"stderr":%s,"raw":%s}`,
+			f.json(), strings.Join(ps, ","), strings.Join(lists, ","), exit, timedOut, jq(se.String()), jq(so.String()))
 	}
 	// generic tokenization of the result lines
 	var rows []string
@@ -221,6 +264,7 @@ func cmdCLI(args []string) {
 	n := fs.Int("n", 150, "random invocations")
 	bin := fs.String("bin", "", "path of the gmars binary built from the repository")
 	presets := fs.Bool("presets", true, "include the preset scenarios")
+	assemble := fs.Bool("assemble", false, "run the binary with -A (listings only) instead of battles")
 	long := fs.Bool("long", false, "include battles of thousands of cycles on 8000-cell cores (slow to validate)")
 	fs.Parse(args)
 	r := rand.New(rand.NewSource(*seed))
@@ -232,6 +276,30 @@ func cmdCLI(args []string) {
 		w.line(runCLI(*bin, dir, f, progs, r, id))
 		w.nextUnit()
 		id++
+	}
+	if *assemble {
+		// "-A": listings of 1 or 2 generated warriors under custom flags and under every preset
+		names := []string{"", "", "", "nopnano", "nop256", "noptiny", "nop94", "88", "icws"}
+		for k := 0; k < *n; k++ {
+			l := 1 + r.Intn(8)
+			f := cliFlags{s: []int{3*l + 1, 3*l + 2 + r.Intn(60), 8000, 8191, 257}[r.Intn(5)], p: 1 + r.Intn(8), c: 1 + r.Intn(150), l: l, eight: r.Intn(3) == 0, r: 1, A: true}
+			if nm := names[r.Intn(len(names))]; nm != "" {
+				f = cliFlags{preset: nm, r: 1, A: true}
+				l = presetsDoc[nm].l
+				if l > 12 {
+					l = 12
+				}
+			}
+			cfg := f.progCfg()
+			progs := []prog{cliProgram(r, cfg, l)}
+			if r.Intn(2) == 0 {
+				progs = append(progs, cliProgram(r, cfg, l))
+			}
+			emit(f, progs)
+		}
+		w.close()
+		fmt.Printf(`{"invocations":%d,"fixed":0,"random":0,"single":0}`+"\n", id)
+		return
 	}
 	for k := 0; k < *n; k++ {
 		l := 1 + r.Intn(6)
@@ -407,7 +475,7 @@ func cmdCLIReplay(args []string) {
 	r := rand.New(rand.NewSource(3))
 	for k, e := range readNDJSON(*in) {
 		fm := e["flags"].(map[string]interface{})
-		f := cliFlags{s: jint(fm["s"]), p: jint(fm["p"]), c: jint(fm["c"]), l: jint(fm["l"]), eight: jint(fm["eight"]) == 1, preset: jstr(fm["preset"]), F: jint(fm["F"]), r: jint(fm["r"])}
+		f := cliFlags{s: jint(fm["s"]), p: jint(fm["p"]), c: jint(fm["c"]), l: jint(fm["l"]), eight: jint(fm["eight"]) == 1, preset: jstr(fm["preset"]), F: jint(fm["F"]), r: jint(fm["r"]), A: jstr(e["ev"]) == "cliA"}
 		var progs []prog
 		for _, p := range e["progs"].([]interface{}) {
 			progs = append(progs, jprog(p))
